@@ -167,7 +167,9 @@ func c03Ambiguous(rng *rand.Rand) *c03Case {
 			"##! note ##!> include inc", "##! ##!> include inc", "##!^ a ##!> include inc", "x ##!> include other", "##!$ b ##!> include other",
 			"##!> include-except inc exc ##!> include other", "##!> include inc -- a b b c", "##!> include inc -- a X ba Y", "##!> include-except inc exc -- b c a b ab Q",
 			"##!> include inc -- a \"\" b a", "{{d0}}x", "y{{d1}}{{d0}}", "##!> include inc -- a b ba c wab d", "##!=> ##!> include inc", "##!+ i ##!> include inc", "##! ##!+ s",
-			"##!> define late {{d0}}", "{{late}}", g.WordList(1)[0]))
+			"##!> define late {{d0}}", "{{late}}", g.WordList(1)[0],
+			"##! + i", "##! +s flag is set elsewhere", "##! ^ anchors the match", "##! $ is matched literally in the next entry", "##!  $", "##! > include inc", "##! >assemble", "##! < end", "##! => marker", "##! =< store",
+			"##!\t+ i", "##! + x"))
 	}
 	p.Main = strings.Join(ls, "\n") + "\n"
 	return &c03Case{Kind: "generate", Prog: p, Lane: "ambiguity"}
